@@ -81,3 +81,11 @@ package codegen
 //@   modifies* nothing
 //@   frameprop C01
 
+
+// Goify hands every non-empty identifier it produces through the escape above (or returns one of the two
+// fixed defaults): whatever CamelCase does, the result is never reserved.
+//@ func Goify
+//@   params str firstUpper
+//@   property C01
+//@   let tableOK = (forall k String :: inMap(isPackage, k) && isPackage[k] ==> !hasSuffix(k, "_")) && !(inMap(isPackage, "val") && isPackage["val"]) && !(inMap(isPackage, "Val") && isPackage["Val"])
+//@   proves* not.reserved: tableOK && str != "" ==> !isPredeclared(result) && !isKeyword(result) && !(inMap(isPackage, result) && isPackage[result])
